@@ -123,6 +123,8 @@ def make_run(cfg):
                     if cfg.get("order") == "attacker-first":
                         attacker_done.wait()      # the well-behaved client arrives just as the hostile connection is being cleaned up
                     p = client.Proxy("PYRO:obj@h:1")
+                    if cfg.get("witness_odd_call"):
+                        p._pyroSerializer = cfg["witness_odd_call"]
                     p._pyroBind()
                     got["witness"].append(("ok", p.token("w1")))
                     witness_in.flag = True
@@ -130,6 +132,14 @@ def make_run(cfg):
                         attacker_done.wait()      # keep the only worker occupied while the attacker is refused
                     if cfg.get("witness_reconnects"):
                         p._pyroRelease()          # every call of the well-behaved client on a new connection: its handshakes mix with the hostile traffic
+                    if cfg.get("witness_odd_call"):
+                        # the well-behaved client itself makes a call whose exception no reply can carry in its serializer: it gets *some*
+                        # error (never silence), and its next calls are served
+                        try:
+                            p.boom("surrogate")
+                            got["witness"].append(("exc", "boom returned"))
+                        except Exception as x:
+                            got["odd"] = type(x).__name__
                     got["witness"].append(("ok", p.token("w2")))
                     if cfg.get("witness_reconnects"):
                         p._pyroRelease()
@@ -320,6 +330,10 @@ def run(ctx):
         for lab, phase, ending in (("garbage.interrupt", "after-handshake", "close"), ("I.trunc@-1", "after-handshake", "reset")) + (() if ctx.quick else (("garbage.interrupt", "first", "close"), ("C.trunc@39", "first", "reset"), ("I.raises-unserialisable", "after-handshake", "close"))):
             cfgs.append({"server": server, "timeout": 0.0, "pool": "roomy", "stream": lab, "phase": phase, "ending": ending, "witness_reconnects": True,
                          "p": 1, "r": 1, "horizon": 4000})
+    # the well-behaved client makes one call whose exception text its serializer cannot encode
+    for server in ("multiplex", "thread"):
+        for sername in ("json", "msgpack", "serpent"):
+            cfgs.append({"server": server, "timeout": 0.0, "pool": "roomy", "stream": "garbage.interrupt", "phase": "first", "ending": "close", "witness_odd_call": sername, "p": 0, "r": 1, "horizon": 4000})
     # the process runs out of descriptors for a while: accept() fails 3 / 8 / 20 times in a row while connections are pending
     for server in ("multiplex", "thread"):
         for nf in (3, 8, 20):
